@@ -18,7 +18,7 @@ Theorems about one iteration of `forward_message`'s recipient loop (`deliverOne`
 state, frame, writable set, set of failing sockets and every nested forward `fwd`.
 
 Refinement link: `model_meets_spec_c14` — no C14 entry in `Spec.runSpec` on the model's own run, for every well-formed
-history — `model_meets_spec_seven` (the seven properties of the `ManagerSim*` family) and `model_meets_spec`, all eight
+history — `model_meets_spec_proven` (the seven properties of the `ManagerSim*` family) and `model_meets_spec`, all eight
 manager properties in one statement.  The pieces:
 `spec_frame_loop_adds_no_c14_on_model` (the Spec's loop over the frames of a round adds no C14 entry),
 `spec_segment_adds_no_c14_on_model` (`Spec.segment` adds no C14 entry on the events of any frame the model reads in a
@@ -425,13 +425,14 @@ theorem model_meets_spec_c14 (cfg : Cfg) (ok : CfgOK cfg) (hfuel : cfg.fuel = 0)
 example : CfgOK ({} : Cfg) ∧ ({} : Cfg).fuel = 0 ∧ ({} : Cfg).mtClosed ≠ ({} : Cfg).allTypes := by
   refine ⟨⟨by decide, by decide, by decide, fun _ _ h => h⟩, rfl, by decide⟩
 
-/-- **The seven properties of the `ManagerSim*` family** (`proven` — the list the chain carries — and C14). -/
-theorem model_meets_spec_seven (cfg : Cfg) (ok : CfgOK cfg) (hfuel : cfg.fuel = 0) (hperm : OrdPerm cfg)
+/-- **The model meets the Spec, for the proved properties** of the `ManagerSim*` family: `proven` = the six the simulation
+chain is stated over (`provenCore`) and C14. -/
+theorem model_meets_spec_proven (cfg : Cfg) (ok : CfgOK cfg) (hfuel : cfg.fuel = 0) (hperm : OrdPerm cfg)
     (hmt : cfg.mtClosed ≠ cfg.allTypes) (rs : List Round) (hwf : RoundsWF rs) :
-    ∀ p ∈ proven ++ ["C14"], (p = "C05" → IncRounds 0 rs) → Spec.NoErr p (Spec.runSpec cfg rs (modelObs cfg rs) none) := by
+    ∀ p ∈ proven, (p = "C05" → IncRounds 0 rs) → Spec.NoErr p (Spec.runSpec cfg rs (modelObs cfg rs) none) := by
   intro p hp hinc
   rcases List.mem_append.mp hp with h | h
-  · exact model_meets_spec_proven ok hfuel hperm hmt rs hwf p h hinc
+  · exact model_meets_spec_core ok hfuel hperm hmt rs hwf p h hinc
   · simp only [List.mem_singleton] at h
     subst h
     exact model_meets_spec_c14 cfg ok hfuel hperm hmt rs hwf
@@ -451,20 +452,20 @@ theorem model_meets_spec (cfg : Cfg) (ok : CfgOK cfg) (hfuel : cfg.fuel = 0) (hp
     ∀ p ∈ Spec.props, (Spec.runSpec cfg rs (Pyrtma.Drv.Manager.modelRun cfg rs).1 none).errs.filter (·.1 == p) = [] := by
   intro p hp
   simp only [Spec.props, List.mem_cons, List.not_mem_nil, or_false] at hp
-  have six : ∀ q ∈ proven,
+  have six : ∀ q ∈ provenCore,
       (Spec.runSpec cfg rs (Pyrtma.Drv.Manager.modelRun cfg rs).1 none).errs.filter (·.1 == q) = [] :=
     fun q hq => spec_passes_on_model ok hfuel hperm hmt rs hwf q hq (fun _ => hinc)
   rcases hp with rfl | rfl | rfl | rfl | rfl | rfl | rfl | rfl
-  · exact six _ (by simp [proven])
-  · exact six _ (by simp [proven])
-  · exact six _ (by simp [proven])
-  · exact six _ (by simp [proven])
-  · exact six _ (by simp [proven])
+  · exact six _ (by simp [provenCore])
+  · exact six _ (by simp [provenCore])
+  · exact six _ (by simp [provenCore])
+  · exact six _ (by simp [provenCore])
+  · exact six _ (by simp [provenCore])
   · rw [(modelRun_obsM cfg rs).1]
     exact (Spec.noErr_iff_filter "C14" _).mp (model_meets_spec_c14 cfg ok hfuel hperm hmt rs hwf)
   · have hord : OrderGood cfg := fun l hl => ⟨(hperm l).nodup_iff.mpr hl, fun x => (hperm l).mem_iff⟩
     exact runSpec_e18 ok hfuel hna hord hsz hneg rs (fun r hr => hwf r hr) hnw
-  · exact six _ (by simp [proven])
+  · exact six _ (by simp [provenCore])
 
 /-- non-vacuity: the hypotheses of `model_meets_spec` hold together — default configuration, a history in which
     three clients connect, subscribe (2 to CLIENT_CLOSED, 3 to FAILED_MESSAGE) and publish, and client 1's socket breaks -/
